@@ -111,6 +111,19 @@ Theorem C10_sibling_reads_classified : forallb read_ok g_wide_reads = true.
 Proof. exact wide_reads_classified_lemma. Qed.
 Print Assumptions C10_sibling_reads_classified.
 
+(* the hand classifications were made for particular function bodies: every function that has a render-phase store or a wide read
+   has the shape (shape_pin-normalised digest) it had when it was reviewed *)
+Theorem C10_classified_functions_unchanged : forallb digest_reviewed g_fn_digests = true.
+Proof. exact fn_digests_reviewed_lemma. Qed.
+Print Assumptions C10_classified_functions_unchanged.
+
+(* what backs render_pure for the BUILT-IN templates: a template imported without context is evaluated once per environment and its
+   module is kept; no packaged template that is imported that way creates a mutable object (namespace(), list/dict display, ...) or
+   runs a {% do %} at its top level *)
+Theorem C10_builtin_templates_keep_no_state : tpl_toplevel_immutable g_tpl_toplevel = true.
+Proof. exact builtin_templates_stateless_lemma. Qed.
+Print Assumptions C10_builtin_templates_keep_no_state.
+
 (* no stale exception: every hand-written classification row (stores, reads) and review row (module objects) still matches an item
    of the regenerated tables; a row whose code is gone or has changed must be removed *)
 Theorem C10_no_stale_classification_rows :
@@ -155,7 +168,11 @@ Proof. exact (conj LookupInstThm.p_single (conj LookupInstThm.p_rank_ok LookupIn
 Print Assumptions C10_real_forest.
 
 (* THE NAMED PREMISE about the template engine: which program (sequence of emit / unique-name / memoised-call / peek
-   operations) a template is for a type does not depend on the process state.  Backed -- outside Coq -- by the scanned facts
+   operations) a template is for a type does not depend on the process state.  BOUNDARY: this holds for templates WITHOUT cross-file
+   state -- no top-level namespace()/mutable object in a file that is imported without context ({% from 'm.j2' import f %}: Jinja keeps
+   the imported module for the life of the generator's environment).  For the built-in templates that is the scanned fact
+   C10_builtin_templates_keep_no_state; for user templates it is FALSE in general as long as finding F-TPL-MODULE-STATE is open
+   (witness: a counting macro file; proposed fix design_notes/C10_template_state_fix.patch drops the kept modules per file).  Backed -- outside Coq -- by the scanned facts
    (3): every registered callable that keeps state is an inventoried site or store. *)
 Definition render_pure (render : ambient -> list (list N) -> N -> option str -> tyobj -> prog) : Prop :=
   forall (a1 a2 : ambient) I cf tmpl o, render a1 I cf tmpl o = render a2 I cf tmpl o.
